@@ -1,11 +1,14 @@
 ---- MODULE MC_Local ----
 (* Open-system regime: one honest node against an environment that holds every other key.
    Byz = Node \ {Me} has quorum stake, so every certificate is constructible and the node can be shown
-   any block of the universe in any order.  EnvSafe is the assumption discharged by the global model. *)
+   any block of the universe in any order.  EnvSafe is the assumption discharged by the global model
+   (CertSafe): what the environment certifies never conflicts with a certified consecutive 2-chain. *)
 EXTENDS HotStuff
 CONSTANTS Me, MaxParked, UseVotes, UseTimeouts, UseEnvSafe
 
 S4 == [i \in 0..3 |-> 1]
+S4u == (0 :> 2) @@ (1 :> 1) @@ (2 :> 2) @@ (3 :> 2)      \* total 7, quorum 5
+S5 == [i \in 0..4 |-> 1]
 
 Shown(n) == ns[n].stored \cup {p.blk : p \in ns[n].parked} \cup {p.blk : p \in ns[n].loopQ} \cup {p.blk : p \in ns[n].pwait}
 Cert(S) == {Par(x) : x \in S}
@@ -14,20 +17,32 @@ EnvSafe(S) == LET C == Cert(S) IN
    /\ \A b1 \in C : (b1 # Genesis /\ Par(b1) # Genesis /\ Rnd(b1) = Rnd(Par(b1)) + 1) =>
          \A c \in C : Rnd(c) >= Rnd(Par(b1)) => Ancestor(Par(b1), c)
 
+EnvProposal(p) ==
+   /\ p \in Deliverable(Me)
+   /\ p.blk \notin ns[Me].stored
+   /\ (p.tc = NoTC \/ p.tc.round + 1 = Rnd(p.blk))
+   /\ (UseEnvSafe => EnvSafe(Shown(Me) \cup {p.blk}))
+   /\ RecvProposal(Me, p, TRUE)
+EnvVote(v)    == UseVotes /\ v.author # Me /\ RecvVote(Me, v)
+EnvTimeout(t) == UseTimeouts /\ t.author \in Byz /\ Rnd(t.hq) < t.round /\ RecvTimeout(Me, t)
+EnvTC(tc)     == RecvTC(Me, tc)
+TimerFire     == Timer(Me)
+Internal ==
+    \/ Propose(Me)
+    \/ \E p \in ns[Me].loopQ : DoLoopback(Me, p)
+    \/ \E p \in ns[Me].parked : DoSyncResume(Me, p)
+InternalEnabled == ns[Me].makeQ # <<>> \/ ns[Me].loopQ # {} \/ \E p \in ns[Me].parked : Par(p.blk) \in ns[Me].stored
+
+VoteSpace    == [blk : Universe \ {Genesis}, author : Node \ {Me}]
+TimeoutSpace == [round : 1..MaxRound, author : Node \ {Me}, hq : Universe]
+
 LNext ==
-  LET n == Me IN
-    \/ \E p \in Deliverable(n) :
-          /\ p.blk \notin ns[n].stored
-          /\ (p.tc = NoTC \/ p.tc.round + 1 = Rnd(p.blk))
-          /\ (UseEnvSafe => EnvSafe(Shown(n) \cup {p.blk}))
-          /\ RecvProposal(n, p, TRUE)
-    \/ UseVotes /\ \E b \in Universe \ {Genesis}, a \in Node \ {n} : RecvVote(n, [blk |-> b, author |-> a])
-    \/ UseTimeouts /\ \E a \in Byz, r \in 1..MaxRound, q \in Universe : Rnd(q) < r /\ RecvTimeout(n, [round |-> r, author |-> a, hq |-> q])
-    \/ \E tc \in TCSpace : RecvTC(n, tc)
-    \/ Timer(n)
-    \/ Propose(n)
-    \/ \E p \in ns[n].loopQ : DoLoopback(n, p)
-    \/ \E p \in ns[n].parked : DoSyncResume(n, p)
+    \/ \E p \in Deliverable(Me) : EnvProposal(p)
+    \/ \E v \in VoteSpace : EnvVote(v)
+    \/ \E t \in TimeoutSpace : EnvTimeout(t)
+    \/ \E tc \in TCSpace : EnvTC(tc)
+    \/ TimerFire
+    \/ Internal
 LSpec == Init /\ [][LNext]_vars
 
 Bound == ns[Me].r <= MaxRound /\ Cardinality(ns[Me].parked) <= MaxParked
